@@ -8,7 +8,7 @@ system program
   `mul add sub div neg`, `fb sign`
 operations
   `shape`                                                  → `ok n m p dt`
-  `resp  T teval U X0 env`                                 → `ok bits=b N n m p x… u… y…`
+  `resp  T teval U X0 env`                                 → `ok bits=b N n m p x… u… y…` | `ok overflow b`
   `lin   t X0 U0 eps env`                                  → `ok A B C D`
   `op    t X0 U0 Y0 dx0 iu iy ix idx env`                  → `ok sol x… u… y…` | `ok singular` | `ok nonsquare`
 Trusted glue (parsing, printing, the exact linear solve of the affine root problem, whose
@@ -150,14 +150,59 @@ partial def skipProgram : P Unit := do
   let t ← tok
   if t == ";" then pure () else skipProgram
 
+def trajBits (tr : Traj) : Nat :=
+  max (bitsList tr.xs.flatten) (max (bitsList tr.us.flatten) (bitsList tr.ys.flatten))
+
 def showTraj (G : DIO) (tr : Traj) : String :=
   let xs := tr.xs.flatten
   let us := tr.us.flatten
   let ys := tr.ys.flatten
-  let b := max (bitsList xs) (max (bitsList us) (bitsList ys))
+  let b := trajBits tr
   s!"ok bits={b} {tr.times.length} {G.n} {G.m} {G.p}" ++ showList xs ++ showList us ++ showList ys
 
+/-- Iterated polynomial maps grow doubly exponentially (the bit length is multiplied by the degree
+at every step); such trajectories leave the binary64 range and the harness does not compare them
+(more than 200 bits).  They are detected on prefixes of 6, 8, 10, … evaluation times so that
+numbers with millions of digits are never computed or printed: `some b` when a prefix needs
+`b > 3000` bits. -/
+def overflowAt (G : DIO) (env : ParamEnv) (T : List Q) (te : List Q) (U : UArg) (X0 : VArg) :
+    Nat → Nat → Option Nat
+  | 0, _ => none
+  | fuel + 1, k =>
+    if k ≥ te.length then none
+    else
+      match response G env T (some (te.take k)) U X0 with
+      | .ok tr =>
+        let b := trajBits tr
+        if b > 3000 then some b else overflowAt G env T te U X0 fuel (k + 2)
+      | .error _ => none
+
 def unitList (k j : Nat) : List Q := (List.range k).map fun i => if i = j then 1 else 0
+
+/-- Gauss–Jordan elimination over `ℚ` on the augmented rows `[M | b]` (`k` rows of length `k+1`):
+the solution of `M z = b`, `none` when a column has no pivot (`M` singular).  Trusted glue: the
+caller checks the result with `rootfun`. -/
+def gaussSolve (k : Nat) (aug : Array (Array Q)) : Option (Array Q) := Id.run do
+  let mut a := aug
+  for c in List.range k do
+    let mut piv : Option Nat := none
+    for r in List.range k do
+      if r ≥ c && piv.isNone && (a.getD r #[]).getD c 0 != 0 then piv := some r
+    match piv with
+    | none => return none
+    | some r =>
+      let rowc := a.getD c #[]
+      let rowr := a.getD r #[]
+      let d := rowr.getD c 0
+      let prn := rowr.map (· / d)
+      a := (a.set! r rowc).set! c prn
+      for r2 in List.range k do
+        if r2 != c then
+          let row := a.getD r2 #[]
+          let f := row.getD c 0
+          if f != 0 then
+            a := a.set! r2 (Array.ofFn (n := k + 1) fun j => row.getD j.val 0 - f * prn.getD j.val 0)
+  return some ((Array.range k).map fun i => (a.getD i #[]).getD k 0)
 
 /-- exact solution of the (affine) root problem, checked against `rootfun`. -/
 def solveOp {n m p : Nat} (S : OpSpec n m p) (G : IOSys (Fin n) (Fin m) (Fin p) Q) : String :=
@@ -172,19 +217,14 @@ def solveOp {n m p : Nat} (S : OpSpec n m p) (G : IOSys (Fin n) (Fin m) (Fin p) 
       | .error e => showErr e
       | .ok cols =>
         let r0a := r0.toArray
-        let tab : Array Q := Id.run do
-          let mut a := Array.mkEmpty (k * k)
-          for i in List.range k do
-            for c in cols do
-              a := a.push (c.getD i 0 - r0a.getD i 0)
-          pure a
-        let M : Matrix (Fin k) (Fin k) Q := ofTable tab
-        if M.det = 0 then "ok singular"
-        else
-          let Mi := tabulate (CtrlVerif.SS.invQ M)
-          let MiM : Matrix (Fin k) (Fin k) Q := ofTable Mi
-          let z : List Q := List.ofFn fun i : Fin k =>
-            -((List.finRange k).foldl (fun acc j => acc + MiM i j * r0a.getD j.val 0) 0)
+        let colsA : Array (Array Q) := (cols.map List.toArray).toArray
+        -- rootfun(z) = r0 + M z with column j of M = rootfun(e_j) - r0: solve M z = -r0
+        let aug : Array (Array Q) := (Array.range k).map fun i =>
+          ((Array.range k).map fun j => (colsA.getD j #[]).getD i 0 - r0a.getD i 0).push (-(r0a.getD i 0))
+        match gaussSolve k aug with
+        | none => "ok singular"
+        | some za =>
+          let z : List Q := za.toList
           match S.rootfun G z, S.result G z with
           | .ok r, .ok (x, u, y) =>
             if r.all (· == 0) then
@@ -213,9 +253,12 @@ def run : P String := do
       let U ← pUArg
       let X0 ← pVArg
       let env ← pEnv
-      match response G env T te U X0 with
-      | .ok tr => pure (showTraj G tr)
-      | .error e => pure (showErr e)
+      match overflowAt G env T (te.getD T) U X0 (te.getD T).length 6 with
+      | some b => pure s!"ok overflow {b}"
+      | none =>
+        match response G env T te U X0 with
+        | .ok tr => pure (showTraj G tr)
+        | .error e => pure (showErr e)
     | "lin" => do
       let t ← pRat
       let X0 ← pVArg
